@@ -56,6 +56,8 @@ pub mod gen {
             json!([{"a": false}, {"a": null}, {"a": 0}, {"b": false}, [false], [null], false, null]),
             json!({"a": {"a": 1}, "b": {"a": {"a": 2}}}),
             json!([[3, 1, 2], [1], [], [5, 4]]),
+            json!([{"ключ": 1}, {"k": [2]}]),
+            json!({"ä": {"ö": [1, {"ü": 2}], "k": 3}, "z": [{"ß": {"k": 4}}, 5]}),
             json!([18446744073709551615u64, 18446744073709551614u64, 1]),
             json!([0, 1, 2, 3, 4, 5, 6]),
         ]
